@@ -43,6 +43,26 @@ for i in range(1, 21):
     k = 'C%02d' % i
     P.setdefault(k, (False, UNDER))
 
+# layer I: routines re-translated from /repo's current source by layerI/rs2v.py and re-proved equal to the model on every run of the property
+LI = {
+ 'C01': "34 shared multi-word helpers of bid_internal.rs (carry/borrow adds, 64x64..128x128 multiplies, shifts, compares), each exact for all inputs",
+ 'C02': "34 shared multi-word helpers of bid_internal.rs, each exact for all inputs",
+ 'C03': "18 of the 20 predicates of bid128_compare.rs (all but quiet_equal / quiet_not_equal) = m_cmp for all operand words and every status word, result and flags",
+ 'C06': "bid128_from_int32 / from_uint32 / from_int64 / from_uint64 = m_from_int for every integer",
+ 'C09': "bid128_same_quantum, bid128_quantexp, bid128_llquantexp, bid128_quantum = the model for all patterns",
+ 'C10': "34 shared multi-word helpers of bid_internal.rs, each exact for all inputs",
+ 'C11': "the pack routine bid_get_BID128 with handle_UF_128 (= the model's round-and-pack for every sign, coefficient < 10^34, i32 exponent, mode and incoming status word), bid128_scalbn, bid128_ldexp, bid128_scalbln (= m_scaleb for every pattern, n, mode, status word), bid128_frexp (= m_frexp)",
+ 'C12': "bid128_copy, bid128_negate, bid128_abs, bid128_copy_sign = the model for all patterns",
+ 'C13': "the seven is_* predicates, is_normal, is_subnormal and bid128_class = the model for all 2^128 patterns (table indices in range)",
+ 'C16': "34 shared multi-word helpers of bid_internal.rs, each exact for all inputs",
+ 'C18': "bid128_total_order and bid128_total_order_mag = m_total_order / _mag for all 2^128 x 2^128 patterns",
+ 'C19': "bid_to_dpd128 and bid_dpd_to_bid128 = the model's DPD codec for all 2^128 words (1000 + 1024 table rows taken from the source text)",
+}
+for _k, _t in LI.items():
+    v = P[_k]
+    P[_k] = (v[0], v[1], v[2] + " Layer I (translated code, re-proved each run, axiom-free): " + _t + "; a change to one of these routines breaks a proof obligation whether or not a generated case reaches it.") + tuple(v[3:])
+
+
 def main():
     checks = []; na = []
     for k in sorted(P):
@@ -63,6 +83,7 @@ def main():
                         source_commits=hooks[::-1], add_only=True),
              engines=[dict(name='coq', path='coq', serves_properties=claimed, kind_free_text='Coq 8.16 + Flocq development: spec (Flocq round, radix 10, FLT_exp -6176 34), executable model, theorems; props/Cxx.v hold the property theorems'),
                       dict(name='model-ocaml', path='ocaml', serves_properties=claimed, kind_free_text='model extracted with ExtrOcamlBasic + hand-written driver judging the implementation outputs'),
+                      dict(name='layerI', path='layerI', serves_properties=sorted(LI), kind_free_text='Rust->Gallina translator rs2v.py (regenerates implementation-shaped Gallina from /repo/src on every run) + proofs that each translated routine equals the model for all inputs (Impl/*.v); trusted: the translator semantics listed in layerI/REPORT.md section 3'),
                       dict(name='harness', path='harness', serves_properties=claimed, kind_free_text='Rust runner with a path dependency on /repo (hooks on), executes generated cases under catch_unwind'),
                       dict(name='tables', path='coq/tables', serves_properties=['C01', 'C02', 'C04', 'C05', 'C06', 'C07', 'C08', 'C09', 'C10', 'C11', 'C17', 'C19'],
                            kind_free_text='table translator: the constant tables are dumped from the compiled crate (hook verif_hooks::dump_tables), turned into Coq definitions by lib/tables.py and re-proved equal to their closed forms (coq/tables/TableSpec.v, TableProofs.v) by kernel computation over the finite index range on every run')],
